@@ -1,6 +1,8 @@
 import Cbor.Drv.Tree
 import Cbor.Model.Builder
 import Cbor.Model.Serialize
+import Cbor.Model.StreamClient
+import Cbor.Drv.GenOps
 /-! Driver operations over the hand-written value-level model (same protocol as harness/tree_ops.c). -/
 namespace Drv
 open Spec Model
@@ -80,6 +82,27 @@ def modelOp (L : Nat) (ws : List String) : Option String :=
   | ["SERA", t] => do some (opSERA (← parseTree t) 0 0)
   | ["SERA", t, m, k] => do some (opSERA (← parseTree t) (← m.toNat?) (← k.toNat?))
   | ["ROUND", t] => do some (opROUND (← parseTree t) L)
+  | ["LN", h, k] => do
+      let pre ← (if h == "-" then some #[] else parseHex h); let k ← k.toNat?
+      let total := if k == 0 then 1 else if k == 1 then 256 else 65536
+      let step := fun (st : UInt64 × Nat × Nat) (v : Nat) =>
+        let a := if k == 0 then pre else if k == 1 then pre.push (UInt8.ofNat v) else (pre.push (UInt8.ofNat (v / 256))).push (UInt8.ofNat (v % 256))
+        let o := load (fun _ _ => true) L { code := .none, position := 0, read := 0 } a
+        let (txt, ok) := match o.item with
+          | some x => (s!"OK {fmtItem x} {o.result.read}" ++ (if o.fault then " MODEL-FAULT" else ""), true)
+          | none => ((if o.result.code == Code.noData then "NODATA" else s!"ERR {codeName o.result.code} {o.result.position}") ++ (if o.fault then " MODEL-FAULT" else ""), false)
+        let h := txt.toUTF8.foldl (fun (h : UInt64) b => (h ^^^ b.toUInt64) * 1099511628211) st.1
+        let h := (h ^^^ 10) * 1099511628211
+        (h, if ok then st.2.1 + 1 else st.2.1, if ok then st.2.2 else st.2.2 + 1)
+      let (h, nok, nerr) := (List.range total).foldl step ((1469598103934665603 : UInt64), 0, 0)
+      let hex := String.ofList (Nat.toDigits 16 h.toNat)
+      some s!"{"".pushn '0' (16 - hex.length)}{hex} ok={nok} err={nerr}"
+  | ["FRAG", h, first, cuts] => do
+      let src ← parseHex h
+      let first ← first.toNat?
+      let arr ← (if cuts == "-" then some [] else (cuts.splitOn ",").mapM String.toNat?)
+      let es := Model.client src (2 * src.size + 2) 0 first arr
+      some s!"{es.length} {fmtEvents es}"
   | ["RO", t] => do
       let x ← parseTree t
       let sz := (size x).toNat
